@@ -72,3 +72,11 @@ Theorem C12_relative_to_keeps :
   startswith path (strip_right (fun c => N.eqb c c_slash) root ++ [c_slash]) = false -> relative_to path root = path.
 Proof. exact relative_to_keeps. Qed.
 Print Assumptions C12_relative_to_keeps.
+
+(* every architecture name the library documents is in the regenerated table, so the builders accept it (rpms_add_accepts_iff
+   and its siblings are stated against that table): a table edit that loses a documented name breaks this obligation *)
+From PM Require Import Proofs.DocArches.
+Theorem C12_documented_architectures_are_known :
+  forall a, In a DOC_RPM_ARCHES -> mem_str a RPM_ARCHES = true.
+Proof. exact documented_arch_is_known. Qed.
+Print Assumptions C12_documented_architectures_are_known.
